@@ -1,6 +1,7 @@
 /- C09: ties to the source text.  Built and audited together with Props/C09.lean by check.py, but in a module of its own, so that a
    changed textual fact breaks the obligations of the properties that own it and not those of every module that imports their lemmas. -/
 import CosetProofs.Ties.RemoveFields
+import CosetProofs.Ties.Budget.Util
 namespace Coset.Props.C09
 
 /-! ### ties to the source text (regenerated on every run, compared in the kernel with the transcribed tree) -/
@@ -8,5 +9,10 @@ namespace Coset.Props.C09
 theorem tie_remove_fields : Coset.Ties.genRemoveFields = Coset.Ties.pinnedRemoveFields := Coset.Ties.remove_fields
 
 #print axioms tie_remove_fields
+
+/-- decision budget of `src/util/mod.rs`: no branch, comparison or integer literal beyond the transcribed tree's (a needle no stream reaches still adds one). -/
+theorem tie_budget_util : Coset.Ties.budgetCovered "util" Coset.Gen.decisionBudget Coset.Pinned.decisionBudget = true := Coset.Ties.budget_util
+
+#print axioms tie_budget_util
 
 end Coset.Props.C09
